@@ -185,6 +185,7 @@ var stRef = baseTime.Add(-30 * time.Minute)
 
 type responders struct {
 	delegateEKU, delegateNoEKU, unrelated *Cert
+	delegateOtherEKU, siblingIssuerName   *Cert
 }
 
 var responderCache sync.Map // issuer raw hash -> *responders
@@ -198,6 +199,10 @@ func respondersFor(issuer *Cert) *responders {
 		delegateEKU:   Issue(CertSpec{CN: "ocsp delegate", KeyName: "ec256c", KU: x509.KeyUsageDigitalSignature, KUExt: ExtCritical, EKU: []string{"ocsp"}, EKUExt: ExtNonCritical}, issuer, nil),
 		delegateNoEKU: Issue(CertSpec{CN: "sibling", KeyName: "ec256c", KU: x509.KeyUsageDigitalSignature, KUExt: ExtCritical}, issuer, nil),
 	}
+	// siblings of the checked certificate that are NOT authorised responders: one with another extended key usage, one
+	// that carries the issuer's own subject name (and another key)
+	r.delegateOtherEKU = Issue(CertSpec{CN: "sibling with code signing", KeyName: "ec256c", KU: x509.KeyUsageDigitalSignature, KUExt: ExtCritical, EKU: []string{"code"}, EKUExt: ExtNonCritical}, issuer, nil)
+	r.siblingIssuerName = Issue(CertSpec{CN: issuer.Spec.CN, KeyName: "ec256c", KU: x509.KeyUsageDigitalSignature, KUExt: ExtCritical, EKU: []string{"code"}, EKUExt: ExtNonCritical}, issuer, nil)
 	other := Issue(CertSpec{CN: "unrelated root", KeyName: "ec521", BC: true, IsCA: true, MaxPathLen: -1, KU: x509.KeyUsageCertSign | x509.KeyUsageCRLSign, KUExt: ExtCritical}, nil, nil)
 	r.unrelated = Issue(CertSpec{CN: "ocsp delegate", KeyName: "ec256c", KU: x509.KeyUsageDigitalSignature, KUExt: ExtCritical, EKU: []string{"ocsp"}, EKUExt: ExtNonCritical}, other, nil)
 	responderCache.Store(k, r)
@@ -280,6 +285,10 @@ func forgeOCSP(b ocspBehav, cert, issuer *Cert) ([]byte, string) {
 		emb(rs.delegateEKU)
 	case "delegate-noeku":
 		emb(rs.delegateNoEKU)
+	case "delegate-othereku":
+		emb(rs.delegateOtherEKU)
+	case "sibling-issuer-name":
+		emb(rs.siblingIssuerName)
 	case "self":
 		emb(cert)
 	case "unrelated-embedded":
@@ -420,6 +429,7 @@ func (e entrySpec) String() string {
 type crlSpec struct {
 	Entries     []entrySpec
 	Number      int64  // CRL number; <0: no number extension
+	NumberBig   string // if set: the CRL number in decimal (numbers of up to 20 octets do not fit an int64)
 	Next        string // +1h | -1h | absent
 	Signer      string // issuer | other | nocrlsign (issuer certificate lacks cRLSign: handled by the chain) | badsig
 	CritExt     bool   // unknown critical list extension
@@ -443,6 +453,9 @@ func buildCRL(s crlSpec, issuer *Cert, serial *big.Int) []byte {
 	tmpl := &x509.RevocationList{ThisUpdate: baseTime.Add(-2 * time.Hour), Number: big.NewInt(1)}
 	if s.Number >= 0 {
 		tmpl.Number = big.NewInt(s.Number)
+	}
+	if s.NumberBig != "" {
+		tmpl.Number, _ = new(big.Int).SetString(s.NumberBig, 10)
 	}
 	switch s.Next {
 	case "+1h":
@@ -489,9 +502,11 @@ func buildCRL(s crlSpec, issuer *Cert, serial *big.Int) []byte {
 	case "bad":
 		tmpl.ExtraExtensions = append(tmpl.ExtraExtensions, pkix.Extension{Id: oidDeltaInd, Critical: true, Value: []byte{0x04, 0x01, 0x01}})
 	default:
-		var n int64
-		fmt.Sscan(s.Indicator, &n)
-		v, _ := asn1.Marshal(big.NewInt(n))
+		n, ok := new(big.Int).SetString(s.Indicator, 10)
+		if !ok {
+			n = big.NewInt(0)
+		}
+		v, _ := asn1.Marshal(n)
 		tmpl.ExtraExtensions = append(tmpl.ExtraExtensions, pkix.Extension{Id: oidDeltaInd, Critical: true, Value: v})
 	}
 	if s.FreshestRaw != nil {
